@@ -309,7 +309,7 @@ def check_c09(tier, seed):
             m = Merged()
             for res in run_sharded(binary, args, st, "buf-%s-%s" % (sub, lib.name), nshards=shards, prefix=vg, timeout=7200):
                 m.add(res, spec); merged.add(res, spec)
-            v.handle(m, None)
+            v.handle(m, make_replayer(binary, args, prefix=vg))   # the named placement alone, again under memcheck
             per["%s/%s" % (lib.name, sub)] = m.evaluations
     uv = [val for k, val in merged.notes.items() if k.startswith("under_valgrind")]
     if not uv or any(x == 0 for x in uv):
